@@ -11,6 +11,10 @@ import json, os, sys
 sys.path.insert(0, os.path.dirname(os.path.dirname(os.path.abspath(__file__))))
 from vlib import *
 
+# the second pass of the generated cases also runs in a process whose local time zone has daylight-saving rules: what the
+# converters make of a time stamp or a zone text is a function of their arguments, not of the host's zone
+C17_ZONE = {"TZ": "Europe/Berlin"}
+
 META = dict(
     property_id="C17", engine="tlc-conv",
     technique="TLA+ reference encodings (TS 24.008 timers, TS 24.501 AMBR units, TS 23.040 zone/time stamp, TS 23.038 7-bit packing) with their decode-encode laws model-checked on the full domains; TLC-generated boundary cases and compact full-domain chunks executed on nasConvert and every observation validated by TLC against the specification's decoders",
@@ -82,7 +86,8 @@ def run(c):
     c.run_driver(drv, ["replay", cp, out1])
     c.run_driver(drv, ["record", out2], timeout=1200)
     ev1 = read_ndjson(out1)
-    events = ev1 + read_ndjson(out2) + c.second_pass(drv, ["replay", cp, os.path.join(c.scratch, "replayT.ndjson")], os.path.join(c.scratch, "replayT.ndjson"), ev1)
+    c.other_env = C17_ZONE      # a mismatch that does not reproduce under the default configuration is confirmed under this one
+    events = ev1 + read_ndjson(out2) + c.second_pass(drv, ["replay", cp, os.path.join(c.scratch, "replayT.ndjson")], os.path.join(c.scratch, "replayT.ndjson"), ev1, extra_env=C17_ZONE)
     # chunk events are heavy (thousands of evaluations each): interleave them over the shards
     heavy = [e for e in events if e.startswith(('{"op":"T2C"', '{"op":"T3C"', '{"op":"AMBRC"'))]
     hs = set(heavy); light = [e for e in events if e not in hs]
